@@ -107,7 +107,9 @@ PROPS = {
              "slots, random 32-bit start counters, no direct descriptor table or one of 2, 4 or 8 slots; 6..40 events "
              "from one of four weight profiles (balanced / many drops between ring polls / futures abandoned / "
              "explicit closes) drawn from {AsyncFd::from_raw_fd, stdin/stdout/stderr wrapper, new creator future: "
-             "open, socket, pipe (regular or .kind(Direct)), accept and multishot_accept on any live descriptor, "
+             "open (built four ways: kind() first or last among the builder calls, open_temp_file, fs::open_file), "
+             "socket, pipe (regular or .kind(Direct); an oracle independent of the model compares the builder's kind "
+             "with the table the submission asks the kernel to allocate from), accept and multishot_accept on any live descriptor, "
              "to_direct_descriptor on a regular one, to_file_descriptor on a direct one; poll of a creator; drop of a "
              "creator in any state; kernel completion of an in-flight creator with the lowest free number of the table "
              "the submission asks for (so numbers are reused after a close; multishot with or without F_MORE); kernel "
@@ -611,12 +613,17 @@ PROPS = {
                   "C12_teardown_releases_everything_fixed", "C12_teardown_of_populations_fixed",
                   "C12_seeded_c12c_releases_state_in_flight_refuted",
                   "C12_seeded_c12c_uses_released_state_in_drain_refuted",
-                  "C12_seeded_c01f_releases_state_in_flight_refuted"],
+                  "C12_seeded_c01f_releases_state_in_flight_refuted",
+                  "C12_ring_drop_leaves_only_uncancelable", "C12_in_flight_after_ring_drop_is_uncancelable",
+                  "C12_seeded_c12k_without_submit_all_refuted"],
         rule="one splitmix64 stream per case (VERIF_SEED, index) on the simulated kernel (strict_cancel mode): a Ring with "
              "(sq, cq) entries in {(2,2), (2,4), (4,4), (4,8)} and random 32-bit start counters; 0..2 SubmissionQueue "
              "clones; 0..3 AsyncFds over fake descriptors (regular or direct), in 3 cases of 8 each regular one with "
              "probability 1/2 marked not cancellable (every operation on it survives ASYNC_CANCEL and the blanket "
-             "REGISTER_SYNC_CANCEL, which then fails with ETIME); 0..4 operations, each on a random AsyncFd (read into a "
+             "REGISTER_SYNC_CANCEL, which then fails with ETIME), in 1 case of 5 each remaining regular one with "
+             "probability 2/3 marked refusing (the kernel refuses every request on it while preparing it: EBADF posted "
+             "when the submission is consumed, never in flight; its operations start unpolled or queued, and in half of "
+             "these cases a refused submission is queued in front of an ordinary one); 0..4 operations, each on a random AsyncFd (read into a "
              "Vec, multishot accept) or owning a SubmissionQueue (socket), each in a starting state from {never polled, "
              "submission queued, in flight, final completion processed but result not taken, finished} (one case in "
              "three with mostly in-flight operations so that the drain overflows), in 3 cases of 8 plus 1..2 zero-copy "
@@ -638,12 +645,15 @@ PROPS = {
              "buffers from real reads) checked only by /proc/self/fd, /proc/self/maps and the number of live heap "
              "blocks; non-trivial = at least three drops; distinct by the Coq case term",
         assumptions=["kernel contract K1-K4 (DESIGN.md §5) as the simulated kernel implements it: submissions consumed "
-                     "in order on enter; CLOSE executes at once; a request is cancellable iff it is in flight, the kernel "
+                     "in order on enter, all of them (the ring is set up with IORING_SETUP_SUBMIT_ALL; without it the "
+                     "simulated kernel, like io_submit_sqes(), stops behind a request it refuses while preparing it: "
+                     "d_rej, consume_stop); CLOSE executes at once; a request is cancellable iff it is in flight, the kernel "
                      "is able to cancel it (not in d_surv) and it is not a two-step request whose result has been "
                      "posted; ASYNC_CANCEL of a cancellable request posts its final completion (a two-step request "
                      "whose result is due posts (-ECANCELED, F_MORE) and then the notification), of any other request "
                      "EALREADY / ENOENT; REGISTER_SYNC_CANCEL(ANY|ALL) does the same for everything cancellable in "
-                     "flight, in order, leaves the rest in flight and then fails with ETIME (Completions::drop logs "
+                     "flight, in order (the simulated kernel matches requests as io_cancel_req_match() does: without ANY "
+                     "only requests whose user_data equals addr, or whose descriptor / opcode agree, are named), leaves the rest in flight and then fails with ETIME (Completions::drop logs "
                      "that and continues); K2: a two-step request posts its result with F_MORE and later a final "
                      "notification, in that order; a completion goes into the ring when there is room and the overflow "
                      "list is empty, else onto the overflow list; every enter flushes the overflow list into free "
@@ -685,8 +695,10 @@ PROPS = {
         model="Model/BufTraits.v",
         run_fn="run_bcase",
         theorems=["C14_exposed_pairs_in_bounds", "C14_reported_lengths_agree",
-                  "C14_set_init_appends_in_order", "C14_limit_never_exceeded", "C14_counting_wrapper_counts_every_transfer"],
-        rule="one splitmix64 stream per case (VERIF_SEED, index): family in {Buf x 12 provided types, BufMut, "
+                  "C14_set_init_appends_in_order", "C14_limit_never_exceeded", "C14_counting_wrapper_counts_every_transfer",
+                  "C14_as_slice_shows_parts"],
+        rule="one splitmix64 stream per case (VERIF_SEED, index): family in {Buf x 12 provided types (parts, len, "
+             "is_empty and as_slice), BufMut, "
              "BufSlice/BufMutSlice as arrays and tuples of arity 1..8}, lengths/capacities with empty and full "
              "buffers, limit in {none, <= total, 2^32+k, k*2^32+j, boundary pool incl. usize::MAX}, 1..5 "
              "query/set_init operations with the bytes written through the exposed iovecs first; non-trivial = "
